@@ -458,4 +458,31 @@ example : matmulL [[-8, -8], [-8, -8]] [[-8, -8], [-8, -8]] = [[128, 128], [128,
   unfold Fmt.InRange Fmt.lo Fmt.hi; decide +kernel
 
 
+/-! ### diagonals with an offset -/
+
+/-- the diagonal with offset 0 is the main diagonal. -/
+theorem diagOffL_zero (rows : List (List ℤ)) : diagOffL rows 0 = diagL rows := by
+  unfold diagOffL diagL
+  simp
+
+/-- every entry of a diagonal (any offset) is an entry of the matrix: it is in the range of the format, so `diagonal` keeps the format
+and `trace` of `k` of them fits `clog2 k` more bits (`trace_fits`). -/
+theorem diagOffL_mem (rows : List (List ℤ)) (k : ℤ) : ∀ e ∈ diagOffL rows k, ∃ row ∈ rows, e ∈ row := by
+  intro e he
+  unfold diagOffL at he
+  simp only [List.mem_filterMap] at he
+  obtain ⟨p, hp, hpe⟩ := he
+  have hrow : p.1 ∈ rows := by
+    have := List.mem_zipIdx hp
+    obtain ⟨_, _, h3⟩ := this
+    rw [h3]; exact List.getElem_mem _
+  refine ⟨p.1, hrow, ?_⟩
+  split at hpe
+  · exact List.mem_of_getElem? hpe
+  · simp at hpe
+
+example : diagOffL [[1, 2, 3], [4, 5, 6]] 1 = [2, 6] ∧ diagOffL [[1, 2, 3], [4, 5, 6]] (-1) = [4] ∧ diagOffL [[1, 2, 3], [4, 5, 6]] 0 = [1, 5] := by
+  decide +kernel
+
+
 end Fxp.C15
